@@ -26,7 +26,8 @@
   External routines kept as parameters: `CalculateInterestFactor` (the per-type factor `f` is an input of
   `beginBlock`; assumed ≥ 1 by the theorems that need it, monitored by the harness).  The split of one
   deposit into lots of `AuctionSize` inside `CreateAuctionsFromDeposit` is represented by its net bank
-  effect (the lot and the deposit's share of the debt leave the liquidator account).
+  effect (the lot and the deposit's share of the debt leave the liquidator account); the individual
+  auctions (lot, debt, max bid per lot) are modelled in `Model/CdpAuctions.lean` for exactly these amounts.
 -/
 import KavaVerif.Num.Dec
 
